@@ -88,6 +88,7 @@ pub struct Spelling {
     pub or_right: usize,      // blanks after ||
     pub v_prefix: bool,       // `v` before the partial
     pub lead_zero: bool,      // leading zero on non-zero numbers
+    pub zero_pad: usize,      // with lead_zero: how many zeros (1 = `01`; 16+ makes the component longer than any valid number)
     pub hyphenless_pre: bool, // prerelease without its hyphen (letter-initial tags only)
     pub lead_blank: usize,
     pub trail_blank: usize,
@@ -96,7 +97,7 @@ pub struct Spelling {
 
 impl Spelling {
     pub fn plain() -> Spelling {
-        Spelling { op_blanks: 0, sep_blanks: 1, or_left: 1, or_right: 1, v_prefix: false, lead_zero: false, hyphenless_pre: false, lead_blank: 0, trail_blank: 0, tab: false }
+        Spelling { op_blanks: 0, sep_blanks: 1, or_left: 1, or_right: 1, v_prefix: false, lead_zero: false, zero_pad: 1, hyphenless_pre: false, lead_blank: 0, trail_blank: 0, tab: false }
     }
     pub fn random(r: &mut Rng) -> Spelling {
         if r.chance(1, 2) {
@@ -109,6 +110,7 @@ impl Spelling {
             or_right: r.below(3),
             v_prefix: r.chance(1, 4),
             lead_zero: r.chance(1, 4),
+            zero_pad: *r.pick(&[1usize, 1, 1, 2, 3, 7, 12]), // total length stays <= 16 digits: longer components are zone Z4
             hyphenless_pre: r.chance(1, 4),
             lead_blank: if r.chance(1, 6) { 1 + r.below(2) } else { 0 },
             trail_blank: if r.chance(1, 6) { 1 + r.below(2) } else { 0 },
@@ -127,7 +129,7 @@ impl Spelling {
             f.push("v-prefix");
         }
         if self.lead_zero {
-            f.push("leading-zero");
+            f.push(if self.zero_pad >= 7 { "long-zero-padding" } else { "leading-zero" });
         }
         if self.hyphenless_pre {
             f.push("hyphenless-pre");
@@ -207,7 +209,7 @@ impl Partial {
             match c {
                 Xr::Num(n) => {
                     if sp.lead_zero && (*n != 0 || zero_pad_ok) && *n < 1000 {
-                        s.push('0');
+                        s.push_str(&"0".repeat(sp.zero_pad.max(1)));
                     }
                     s.push_str(&n.to_string());
                 }
